@@ -283,6 +283,13 @@ def main(REG):
         "wall_s": round(wall, 1),
         "violations": len(violations) + (1 if (problems and not violations) else 0),
     }
+    if a.replay:
+        want = r.get("class")
+        got = sorted(set([f["class"] for f in (summary.get("oracle_failures") or [])]))
+        if want == "no-failing-input-found":
+            print("replay: %s" % ("still unproved / disagreeing: " + "; ".join(str(pb.get("what"))[:120] for pb in problems[:3]) if problems else "everything checks now"))
+        else:
+            print("replay: class %s %s (classes seen in this run: %s)" % (want, "REPRODUCED" if want in got else "not reproduced", got))
     json.dump(ev, open(os.path.join(V, "evidence", prop + ".json"), "w"), indent=1)
     for l in lines:
         print(l)
